@@ -151,10 +151,19 @@ class Ctx:
         return res
 
     def coqchk(self, lib_names, timeout=3000):
+        """Independent re-check of compiled .vo files (thorough tier). Does not clean anything."""
         t = time.time()
         rc, out = sh(["coqchk", "-silent", "-o", "-Q", "theories", "Scalibr"] + lib_names,
                      cwd=COQ, timeout=timeout)
-        return {"rc": rc, "wall_s": round(time.time() - t, 1), "output_tail": out[-2500:]}
+        m = re.search(r"\* Axioms:(.*?)\n\s*\n\* Constants", out, re.S)
+        axioms = " ".join(m.group(1).split()) if m else "?"
+        res = {"rc": rc, "wall_s": round(time.time() - t, 1), "axioms": axioms, "libs": lib_names,
+               "output_tail": out[-1200:]}
+        self.coverage["coqchk"] = res
+        if rc != 0:
+            self.proof_ok = False
+            self.violation({"kind": "coqchk-failed", "libs": lib_names, "log_tail": out[-3000:]}, nofail=True)
+        return res
 
     def run_cases(self, name, vfile_text, timeout=1800):
         """Compile a generated cases file. It must `Print` definitions; returns (rc, output)."""
